@@ -7,4 +7,7 @@ MCMaxT(p) == IF SeqSum(p) <= 2 THEN 4 ELSE IF SeqSum(p) = 3 THEN 3 ELSE 2
 MCBigQuick == {<<21, 11>>, <<3, 3>>, <<7, 4, 5>>, <<3, 5, 2, 4>>}
 MCBigAll == {<<21, 11>>, <<41, 3>>, <<3, 3>>, <<9, 9>>, <<7, 4, 5>>, <<11, 3, 3>>, <<3, 5, 2, 4>>, <<5, 5, 5, 5>>}
 MCBigNone == {}
+\* more than 2^16 cells (a vectorised or blocked reduction would change path here)
+MCBigHuge == {<<257, 257>>, <<41, 41, 41>>, <<17, 17, 17, 17>>}
+MCPopsNone == {}
 =============================================================================
